@@ -2,6 +2,8 @@
 From Coq Require Import ZArith NArith List Bool Arith.
 Import ListNotations.
 From PV Require Import Base.PySeq Base.Rx Base.RxFacts Expect.Model Expect.Spec Expect.Refine Expect.SpecFacts.
+From PV Require Transport.Model Transport.Proofs.
+From PV Require Import Compose.Model Compose.Proofs.
 
 (** When the stream ends / the time runs out / the transport fails before any window contained an occurrence:
     the result is "index of the marker if listed (Some i), else that exception (None)" - never another
@@ -44,6 +46,22 @@ Theorem C04_eof_is_sticky :
   (AtEof (eof_index c) [], {| pend := []; buf := [] |}, []).
 Proof. exact eof_sticky. Qed.
 Print Assumptions C04_eof_is_sticky.
+
+
+(** END TO END (Compose/): over the kernel-endpoint model, with any transport whose read respects C06 (pty, fd, socket), a call
+    reports EOF only when the kernel holds nothing more and the peer is gone; the index is that of the listed EOF marker (None:
+    the exception); before is ALL the text that was pending or arrived - what was pending, what the kernel held, what the peer
+    still wrote -, and nothing is left pending. *)
+Theorem C04_end_to_end_eof :
+  forall (rx : Type) (re_search : rx -> text -> nat -> option (nat * nat))
+         (rd : T.kern -> T.sched -> nat -> T.res * T.kern * T.sched) (maxread : nat),
+  (forall r t p a b, re_search r t p = Some (a, b) -> a <= b) ->
+  (forall size k s, TP.ok_from size k [] (rd k s size)) ->
+  forall c t0 fuel s k sc i b s' k' sc', wfW rx c -> Inv s ->
+  expect_over rx re_search rd maxread fuel c t0 s k sc = Done (AtEof i b) s' k' sc' ->
+  T.kbuf k' = [] /\ TP.gone k' /\ i = eof_index c /\ pend s' = [] /\ exists w, b = pend s ++ T.kbuf k ++ w.
+Proof. exact expect_over_eof. Qed.
+Print Assumptions C04_end_to_end_eof.
 
 (** with timeout 0 the pending text is searched and one read is still attempted *)
 Example C04_timeout_zero_reads_once :
